@@ -88,15 +88,54 @@ def run(P, R, tier):
     # shell marker = start view of polygon offsets
     marks = [s for s in walk_own(op.node) if isinstance(s, ast.Assign) and isinstance(s.targets[0], ast.Subscript) and norm(s.value) == 'True']
     R.floor('C15.c', 'shell marker stores in orient_polygons', len(marks), 1)
+    def _start_view(e):
+        if isinstance(e, ast.Name):
+            t_ = astq.trace(op, e)
+            e = t_ if isinstance(t_, ast.AST) else e
+        return isinstance(e, ast.Subscript) and norm(e.value) == op.params[1] and isinstance(e.slice, ast.Slice) and e.slice.lower is None \
+            and e.slice.upper is not None and norm(e.slice.upper) == '-1' and e.slice.step is None
+
+    def _ring_count(e):
+        """expression equal to the number of rings: len(ring_offsets) - 1, a name bound to it, or len(<the marker array>)"""
+        if isinstance(e, ast.Name):
+            t_ = astq.trace(op, e)
+            e = t_ if isinstance(t_, ast.AST) else e
+        return norm(e) in (f'len({op.params[2]}) - 1', f'{op.params[2]}.shape[0] - 1', f'{op.params[2]}.size - 1')
+
     for s in marks:
         idx = s.targets[0].slice
         if isinstance(idx, ast.Name):
             t_ = astq.trace(op, idx)
             idx = t_ if isinstance(t_, ast.AST) else idx
-        ok = isinstance(idx, ast.Subscript) and norm(idx.value) == op.params[1] and isinstance(idx.slice, ast.Slice) and idx.slice.lower is None \
-            and idx.slice.upper is not None and norm(idx.slice.upper) == '-1' and idx.slice.step is None
+        # accepted forms: V  |  V[V < n_rings]   with V the start view polygon_offsets[:-1]
+        bounded = False
+        view = idx
+        msk = idx.slice if isinstance(idx, ast.Subscript) else None
+        if isinstance(msk, ast.Name):
+            t_ = astq.trace(op, msk)
+            msk = t_ if isinstance(t_, ast.AST) else msk
+        if isinstance(msk, ast.Compare):
+            for l_, op_, r_ in astq.cmp_forms(msk):
+                if op_ is ast.Lt and _start_view(l_) and (_ring_count(r_) or norm(r_) == f'len({norm(s.targets[0].value)})'):
+                    bounded = True
+                    view = idx.value
+        ok = _start_view(view)
         R.check(ok, 'C15.c', op, s, 'the shell of each polygon is its first ring: rings polygon_offsets[:-1] are expected counter-clockwise',
                 f'shell marker index `{norm(idx)}` is not the start view polygon_offsets[:-1]: a hole is treated as a shell (or a shell as a hole)')
+        # C15.e: the start offset of a trailing polygon without rings equals the number of rings -- one past the marker array
+        arr = astq.trace(op, s.targets[0].value) if isinstance(s.targets[0].value, ast.Name) else None
+        if ok and isinstance(arr, ast.Call) and norm(arr.func).split('.')[-1] in ('zeros', 'full', 'empty') and arr.args:
+            n_ = arr.args[0]
+            exact = _ring_count(n_)
+            roomy = norm(n_) in (f'len({op.params[2]})', f'{op.params[2]}.shape[0]', f'{op.params[2]}.size')
+            if exact or roomy:
+                R.check(bounded or roomy, 'C15.e', op, s, 'the shell marker store stays inside the per-ring array (start offsets of trailing empty polygons are excluded)',
+                        f'`{norm(s)}` stores at polygon_offsets[:-1], whose last entries equal the number of rings when the array ends with polygons that have no rings (empty or missing): '
+                        'the store lands one slot past the per-ring array (IndexError with bounds checking, a stray write without)', construct='shell marker store in bounds')
+            else:
+                R.abstain('C15.e', op, s, f'cannot relate the length `{norm(n_)}` of the marker array to the ring count')
+        elif ok:
+            R.abstain('C15.e', op, s, 'marker array allocation not recognised')
     # flips: both strides over the same range, reversed
     flips = [s for s in ast.walk(op.node) if isinstance(s, ast.Assign) and isinstance(s.targets[0], ast.Subscript) and isinstance(s.targets[0].slice, ast.Slice)
              and s.targets[0].slice.step is not None and norm(s.targets[0].slice.step) == '2' and norm(s.targets[0].value) == op.params[0]]
